@@ -710,7 +710,10 @@ func castArr(opts *options, v value) ([]value, Error) {
 	if ref, ok := v.(*cfgDynamic); ok {
 		unrefed, err := ref.getValue(opts)
 		if err != nil {
-			return nil, raiseMissingMsg(ref.ctx.getParent(), ref.ctx.field, err.Error())
+			// the error is about the setting itself: report its own path and
+			// source (the enclosing configuration may have been created
+			// without metadata)
+			return nil, raisePathErr(ErrMissing, ref.meta(), err.Error(), ref.ctx.path("."))
 		}
 
 		if sub, ok := unrefed.(cfgSub); ok {
